@@ -49,6 +49,7 @@ Definition erase (ids : list (nat * N)) (e : hev) : option ev :=
   | HFreeRec (HPtr hb Z0) sz => match lookup hb ids with Some n => Some (EF n (Z.to_N sz)) | None => None end
   | HFreeRec _ _ => None
   | HWarn => None
+  | HFail => None
   end.
 (* an event that erase reads as intended: a record free names the start of a block whose ordinal is known *)
 Definition resolved (ids : list (nat * N)) (e : hev) : Prop :=
